@@ -18,7 +18,7 @@ fn main() {
     // (a non-unwinding panic - std's unsafe-precondition check - is about to abort the process: say why)
     std::panic::set_hook(Box::new(|info| {
         let msg = format!("{}", info);
-        if msg.contains("unsafe precondition") || msg.contains("harness:") {
+        if msg.contains("unsafe precondition") || msg.contains("harness:") || std::env::var("PQVERIF_VERBOSE").is_ok() {
             eprintln!("{}", msg);
         }
     }));
